@@ -247,9 +247,10 @@ def _occupancy_method_ok(tov: ast.ClassDef) -> bool:
 
 
 def run(ctx: Context) -> None:
-    r1_gating_exact(ctx)
-    r2_occupancy_not_wider(ctx)
-    r3_capacity_bound(ctx)
-    r4_no_gap(ctx)
-    r5_rewards(ctx)
-    r6_running_occupancy(ctx)
+    ctx.isolate(r1_gating_exact)
+    ctx.isolate(r2_occupancy_not_wider)
+    ctx.isolate(r3_capacity_bound)
+    ctx.isolate(r4_no_gap)
+    ctx.isolate(r5_rewards)
+    ctx.isolate(r6_running_occupancy)
+    ctx.isolate(c10.r5c_compat_on_cleared_worker, rule="C14.R7")
